@@ -272,7 +272,14 @@ endpats: Final = {
     "'''": r"(?:[^'\\]|\\.|'(?!''))*'''",
     '"""': r'(?:[^"\\]|\\.|"(?!""))*"""',
 }
-StartLBrace = r".*?(?=\{(?!\{)){"
+# The literal part of an f-string up to the `{` of the next replacement field. Like endpats it
+# must not run past the closing quote (a `{` later on the line belongs to other code); `{{` is text.
+StartLBrace: Final = {
+    "'": r"(?:[^'\\{]|\\[^{]|\\(?=\{)|\{\{)*?\{(?!\{)",
+    '"': r'(?:[^"\\{]|\\[^{]|\\(?=\{)|\{\{)*?\{(?!\{)',
+    "'''": r"(?:[^'\\{]|\\[^{]|\\(?=\{)|'(?!'')|\{\{)*?\{(?!\{)",
+    '"""': r'(?:[^"\\{]|\\[^{]|\\(?=\{)|"(?!"")|\{\{)*?\{(?!\{)',
+}
 EndRBrace = r".*?(?=\}(?!\}))}"
 
 tabsize = 8
@@ -474,7 +481,7 @@ def next_psuedo_matches(state: TokenizerState) -> TokenInfo | None:
         quote = match.group("Quote") or '"'
         if "f" in token.lower():
             token_type = Token.FSTRING_START
-            pattern = choice(LBrace=StartLBrace, End=endpats[quote])
+            pattern = choice(LBrace=StartLBrace[quote], End=endpats[quote])
             state.add_prog(end, end, pattern=pattern, quote=quote, mode=ModeMiddle(state.parenlev))
         else:
             pattern = endpats[quote]
